@@ -43,6 +43,11 @@ type Profile struct {
 	DefsOnlyPrimitivesAndObjects bool
 	DefWeights                   map[string]int // overrides the kinds of definitions
 	MinDefs                      int
+	// MixedBranches: allOf/anyOf branches may be of any kind (null, primitive,
+	// enum, array, reference to any definition, nested object) and composites
+	// also appear as array items and definitions. No value oracle covers these;
+	// they serve the compile-level property only.
+	MixedBranches bool
 
 	// Sat reports whether a numeric node admits some value; unsatisfiable draws
 	// are repaired (constraints dropped) unless KeepUnsat.
@@ -182,7 +187,7 @@ func (c *Ctx) Node(t *rapid.T, depth int, pos Pos, arrDepth int) *model.Node {
 		if arrDepth < p.ArrayDepth {
 			cs = append(cs, kindChoice{"array", p.WArray})
 		}
-		if pos == PosProp {
+		if pos == PosProp || (p.MixedBranches && pos == PosItem) {
 			cs = append(cs, kindChoice{"allOf", p.WAllOf}, kindChoice{"anyOf", p.WAnyOf})
 		}
 	}
@@ -547,7 +552,76 @@ func (c *Ctx) Composite(t *rapid.T, kind model.Kind, depth int) *model.Node {
 				b.Required = append(b.Required, name)
 			}
 		}
+		if c.P.MixedBranches && rapid.IntRange(0, 99).Draw(t, "mixedbranch") < 45 {
+			b = c.mixedBranch(t, kind, depth, b)
+		}
 		n.Branches = append(n.Branches, b)
+	}
+	if c.P.MixedBranches {
+		// branches state disjoint property sets (overlap with conflicting types is
+		// C11's subject and a known finding there): names taken by referenced
+		// definitions are fixed, inline duplicates are renamed
+		seen := map[string]bool{}
+		for _, b := range n.Branches {
+			if b.Kind == model.KRef {
+				if r := b.Resolve(); r != nil {
+					for _, p := range r.Props {
+						seen[strings.ToLower(p.Name)] = true
+					}
+				}
+			}
+		}
+		for _, b := range n.Branches {
+			if b.Kind != model.KObject {
+				continue
+			}
+			for i := range b.Props {
+				old := b.Props[i].Name
+				name := old
+				for k := 2; seen[strings.ToLower(strings.ReplaceAll(name, "_", ""))]; k++ {
+					name = fmt.Sprintf("%sv%d", old, k)
+				}
+				seen[strings.ToLower(strings.ReplaceAll(name, "_", ""))] = true
+				if name != old {
+					b.Props[i].Name = name
+					for j, r := range b.Required {
+						if r == old {
+							b.Required[j] = name
+						}
+					}
+				}
+			}
+		}
+	}
+	if c.P.MixedBranches && kind == model.KAnyOf {
+		objs, others := 0, 0
+		for _, b := range n.Branches {
+			if objectLike(b) {
+				objs++
+			} else {
+				others++
+			}
+		}
+		if objs > 0 && others > 0 && c.P.avoid("anyof.object_and_non_object_branches") {
+			// known finding: the non-object branches get no type of their own
+			kept := n.Branches[:0]
+			for _, b := range n.Branches {
+				if objectLike(b) {
+					kept = append(kept, b)
+				}
+			}
+			n.Branches = kept
+		}
+		if objs == 0 && c.P.avoid("anyof.non_object_branches_with_format_array") {
+			// known finding: the import of the items' format type is left unused
+			for _, b := range n.Branches {
+				model.Walk(b, func(x *model.Node) {
+					if x.Kind == model.KArray && x.Items != nil {
+						model.Walk(x.Items, func(y *model.Node) { y.Format = "" })
+					}
+				})
+			}
+		}
 	}
 	if kind == model.KAllOf && rapid.IntRange(0, 9).Draw(t, "reqonly") < 3 {
 		// the idiom allOf: [{...properties...}, {"required": [...]}]: a branch that only lists required
@@ -566,6 +640,80 @@ func (c *Ctx) Composite(t *rapid.T, kind model.Kind, depth int) *model.Node {
 		}
 	}
 	return n
+}
+
+func objectLike(n *model.Node) bool {
+	r := n.Resolve()
+	return r != nil && (r.Kind == model.KObject || r.Kind == model.KAllOf || r.Kind == model.KAnyOf)
+}
+
+// mixedBranch draws a branch that is not a plain inline object. Under allOf
+// only object-like alternatives are drawn (an allOf over different JSON types
+// admits nothing and is not a schema anyone writes).
+func (c *Ctx) mixedBranch(t *rapid.T, parent model.Kind, depth int, fallback *model.Node) *model.Node {
+	if parent == model.KAllOf {
+		var objDefs []model.Def
+		for _, d := range c.Defs {
+			if d.Node.Kind == model.KObject {
+				hasAnyOf := false
+				model.Walk(d.Node, func(x *model.Node) { hasAnyOf = hasAnyOf || x.Kind == model.KAnyOf })
+				if hasAnyOf && c.P.avoid("allof.ref_branch_with_anyof_property") {
+					continue
+				}
+				objDefs = append(objDefs, d)
+			}
+		}
+		if len(objDefs) > 0 && rapid.IntRange(0, 2).Draw(t, "mixedallof") > 0 {
+			d := rapid.SampledFrom(objDefs).Draw(t, "mixedref")
+			return &model.Node{Kind: model.KRef, Ref: "#/$defs/" + d.Name, Target: d.Node}
+		}
+		if rapid.Bool().Draw(t, "mixedallofobj") {
+			return c.Object(t, depth+1)
+		}
+		return fallback
+	}
+	kinds := []string{"null", "null", "string", "integer", "number", "boolean", "enum", "array", "object", "any"}
+	if len(c.Defs) > 0 {
+		kinds = append(kinds, "ref", "ref", "ref")
+	}
+	switch rapid.SampledFrom(kinds).Draw(t, "mixedkind") {
+	case "null":
+		return &model.Node{Kind: model.KNull}
+	case "string":
+		return c.String(t, PosProp)
+	case "integer":
+		return c.Numeric(t, model.KInteger, PosProp)
+	case "number":
+		return c.Numeric(t, model.KNumber, PosProp)
+	case "boolean":
+		return &model.Node{Kind: model.KBoolean}
+	case "enum":
+		return c.Enum(t)
+	case "array":
+		return c.Array(t, depth+1, 1)
+	case "object":
+		return c.Object(t, depth+1)
+	case "ref":
+		var cands []model.Def
+		for _, d := range c.Defs {
+			hasAnyOf := false
+			model.Walk(d.Node, func(x *model.Node) { hasAnyOf = hasAnyOf || x.Kind == model.KAnyOf })
+			if hasAnyOf && c.P.avoid("allof.ref_branch_with_anyof_property") {
+				continue
+			}
+			if !(d.Node.Kind == model.KObject && len(d.Node.Required) > 0) && c.P.avoid("anyof.ref_branch_without_validators") {
+				// known finding: a referenced branch whose type has no unmarshaler
+				continue
+			}
+			cands = append(cands, d)
+		}
+		if len(cands) == 0 {
+			return fallback
+		}
+		d := rapid.SampledFrom(cands).Draw(t, "mixedref")
+		return &model.Node{Kind: model.KRef, Ref: "#/$defs/" + d.Name, Target: d.Node}
+	}
+	return &model.Node{Kind: model.KAny}
 }
 
 func (c *Ctx) leaf(t *rapid.T) *model.Node {
@@ -593,7 +741,14 @@ func (c *Ctx) DefNode(t *rapid.T) *model.Node {
 			cs = append(cs, kindChoice{k, p.DefWeights[k]})
 		}
 	}
+	if p.MixedBranches {
+		cs = append(cs, kindChoice{"allOf", 1}, kindChoice{"anyOf", 2})
+	}
 	switch pick(t, "defkind", cs) {
+	case "allOf":
+		return c.Composite(t, model.KAllOf, 2)
+	case "anyOf":
+		return c.Composite(t, model.KAnyOf, 2)
 	case "object":
 		return c.Object(t, 2)
 	case "string":
